@@ -67,6 +67,7 @@ fn attack_engine(args: &[String]) -> i32 {
     let mut out = Out::new();
     for (i, c) in cases.iter().enumerate() {
         let kind = c["kind"].as_str().unwrap_or("honest").to_string();
+        let variant = c["variant"].as_u64().unwrap_or(0) as usize;
         let case: run::Case = match serde_json::from_value(c.clone()) {
             Ok(c) => c,
             Err(e) => {
@@ -77,13 +78,13 @@ fn attack_engine(args: &[String]) -> i32 {
         type B64 = f64::BaseElement;
         type B128 = f128::BaseElement;
         let r = wfcommon::util::catch(|| match (case.field.as_str(), case.hash.as_str(), case.opts.ext) {
-            ("f64", "blake3_256", 1) => attack::attack::<B64, Blake3_256<B64>, B64>(&case, &kind),
-            ("f64", "blake3_256", 2) => attack::attack::<B64, Blake3_256<B64>, QuadExtension<B64>>(&case, &kind),
-            ("f64", "blake3_256", 3) => attack::attack::<B64, Blake3_256<B64>, CubeExtension<B64>>(&case, &kind),
-            ("f64", "rp64_256", 1) => attack::attack::<B64, Rp64_256, B64>(&case, &kind),
-            ("f64", "rp64_256", 2) => attack::attack::<B64, Rp64_256, QuadExtension<B64>>(&case, &kind),
-            ("f128", "blake3_256", 1) => attack::attack::<B128, Blake3_256<B128>, B128>(&case, &kind),
-            ("f128", "blake3_256", 2) => attack::attack::<B128, Blake3_256<B128>, QuadExtension<B128>>(&case, &kind),
+            ("f64", "blake3_256", 1) => attack::attack::<B64, Blake3_256<B64>, B64>(&case, &kind, variant),
+            ("f64", "blake3_256", 2) => attack::attack::<B64, Blake3_256<B64>, QuadExtension<B64>>(&case, &kind, variant),
+            ("f64", "blake3_256", 3) => attack::attack::<B64, Blake3_256<B64>, CubeExtension<B64>>(&case, &kind, variant),
+            ("f64", "rp64_256", 1) => attack::attack::<B64, Rp64_256, B64>(&case, &kind, variant),
+            ("f64", "rp64_256", 2) => attack::attack::<B64, Rp64_256, QuadExtension<B64>>(&case, &kind, variant),
+            ("f128", "blake3_256", 1) => attack::attack::<B128, Blake3_256<B128>, B128>(&case, &kind, variant),
+            ("f128", "blake3_256", 2) => attack::attack::<B128, Blake3_256<B128>, QuadExtension<B128>>(&case, &kind, variant),
             _ => json!({"honest": "unsupported_combo"}),
         });
         let mut r = match r {
